@@ -609,6 +609,31 @@ def _r7_bounded_evaluation(model: RepoModel, rep):
                                   f"analysis busy for ever or exhausts memory")
     if not n:
         raise AnalysisError("no eval() call found: the constant folder this rule is about has vanished or moved")
+    # a list is never grown to a length that a constant of the analysed program dictates: the helper that extends element lists up to an
+    # index compares the extension with a configured cap first (and refuses, so that the caller widens to "unknown index")
+    um = model.module("util/util.py")
+    for f in um.all_funcs():
+        cfg = None
+        for c in walk_no_nested(f.node):
+            if not (isinstance(c, ast.Call) and isinstance(c.func, ast.Attribute) and c.func.attr == "extend" and c.args
+                    and any(isinstance(x, ast.Call) and call_name(x) == "range" for x in ast.walk(c.args[0]))):
+                continue
+            sized_by = {x.id for r in ast.walk(c.args[0]) if isinstance(r, ast.Call) and call_name(r) == "range" for a in r.args for x in ast.walk(a)
+                        if isinstance(x, ast.Name) and x.id in f.params}
+            if not sized_by:
+                continue
+            cfg = cfg or cfg_of(f.node)
+            key = f"util/util.py::{f.qualname}::`{norm(c)[:60]}`::the extension is capped"
+            nd = next((n_ for n_ in cfg.g.nodes if any(cc is c for cc in cfg.calls_at(n_))), None)
+            capped = nd is not None and any(isinstance(a, ast.Compare) and (sized_by & {x.id for x in ast.walk(a) if isinstance(x, ast.Name)})
+                                            and any((dotted(x) or "").startswith("config.MAX") for x in ast.walk(a)) for a, _t in cfg.conditions_at(nd))
+            if capped:
+                rep.holds("C13.R7", key, "util/util.py", c.lineno, f"guarded by a comparison of {sorted(sized_by)} with a config.MAX_* cap")
+            else:
+                rep.violation("C13.R7", key, "util/util.py", c.lineno,
+                              f"{f.qualname} extends a list by a number of elements computed from {sorted(sized_by)} without a cap: for `a[30000000] = x` the "
+                              f"index is a constant of the analysed program, and the analysis builds (and copies, per visit) a list of that length -- time and "
+                              f"memory proportional to the VALUE of a literal")
 
 
 def _r5_self_feeding_worklists(model: RepoModel, rep):
